@@ -5,13 +5,15 @@ using namespace gmlc::concurrency;
 
 constexpr int MAXE = 48;
 struct Ctx {
-    std::atomic<int> destroyed[MAXE], callbacks[MAXE], owners[MAXE], cb_before_dtor_ok[MAXE];
+    std::atomic<int> destroyed[MAXE], callbacks[MAXE], owners[MAXE], cb_before_dtor_ok[MAXE], queued_twice[MAXE];
     std::atomic<int> container_alive{1};
     std::atomic<int> added{0}, destroyed_total{0};
+    std::atomic<int> extra_entries{0};  // second entries of objects that were handed over twice
     std::atomic<int> next_id{0};
     bool with_callback = false;
     bool callback_may_throw = false;  // a throwing callback aborts the batch: later elements of it die without their callback (C20 territory)
-    std::function<void(int)> reenter;  // 0 size, 1 add a child, 2 destroyObjects
+    std::function<void(int, int)> reenter;  // (what, depth of the caller): 0 size, 1 add a child, 2 destroyObjects
+    bool deep_chains = false;  // children re-enter as well: chains of up to 9 generations of destructor-added objects
     std::atomic<uint64_t> reentries{0};
     Ctx()
     {
@@ -20,6 +22,7 @@ struct Ctx {
             callbacks[i].store(0);
             owners[i].store(0);
             cb_before_dtor_ok[i].store(0);
+            queued_twice[i].store(0);
         }
     }
 };
@@ -27,8 +30,9 @@ struct Elem {
     Ctx* cx;
     int id;
     int reenter_kind;  // -1 none
+    int depth = 0;     // generation: 0 = added by a client, n = added by the destructor of a generation n-1 object
     uint32_t magic = 0xE1E1E1E1u;
-    Elem(Ctx* c, int i, int rk): cx(c), id(i), reenter_kind(rk) {}
+    Elem(Ctx* c, int i, int rk, int d = 0): cx(c), id(i), reenter_kind(rk), depth(d) {}
     Elem(const Elem&) = delete;
     ~Elem()
     {
@@ -40,13 +44,16 @@ struct Elem {
             vrf::raise_violation("oracle:element_destroyed_while_another_owner_holds_it", "{\"id\":" + std::to_string(id) + "}");
         if (vrf::held_count() != 0)
             vrf::raise_violation("oracle:element_destructor_ran_under_a_lock", "{\"id\":" + std::to_string(id) + ",\"locks_held\":" + std::to_string(vrf::held_count()) + "}");
-        if (cx->with_callback && !cx->callback_may_throw && cx->container_alive.load(std::memory_order_relaxed) == 1 && cx->callbacks[id].load(std::memory_order_relaxed) != 1)
+        // (an object that was handed over twice is never reaped by destroyObjects on the unchanged tree - two entries keep its
+        // use count above one - and dies with the container's vector: no callback is owed for that)
+        if (cx->with_callback && !cx->callback_may_throw && cx->container_alive.load(std::memory_order_relaxed) == 1 && cx->callbacks[id].load(std::memory_order_relaxed) != 1 &&
+            !(cx->queued_twice[id].load(std::memory_order_relaxed) && cx->callbacks[id].load(std::memory_order_relaxed) == 0))
             vrf::raise_violation("oracle:element_reaped_without_its_callback", "{\"id\":" + std::to_string(id) + ",\"callbacks\":" + std::to_string(cx->callbacks[id].load()) + "}");
         cx->destroyed_total.fetch_add(1, std::memory_order_relaxed);
         vrf::user_point();
         if (reenter_kind >= 0 && cx->container_alive.load(std::memory_order_relaxed) == 1 && cx->reenter) {
             cx->reentries.fetch_add(1, std::memory_order_relaxed);
-            cx->reenter(reenter_kind);
+            cx->reenter(reenter_kind, depth);
         }
     }
 };
@@ -69,6 +76,7 @@ static void one_round(long r, bool concurrent, const char* cname)
     auto& rng = R.rng;
     Ctx cx;
     cx.with_callback = rng.chance(60);
+    cx.deep_chains = rng.chance(20);
     bool cb_reenters = rng.chance(30), cb_throws = rng.chance(10);
     cx.callback_may_throw = cb_throws;
     int nt = concurrent ? static_cast<int>(rng.range(2, 4)) : 1;
@@ -89,7 +97,7 @@ static void one_round(long r, bool concurrent, const char* cname)
         }
         scripts.push_back(sc);
     }
-    std::string pj = std::string("{\"class\":\"") + cname + "\",\"callback\":" + (cx.with_callback ? "1" : "0") + ",\"callback_reenters\":" + (cb_reenters ? "1" : "0") +
+    std::string pj = std::string("{\"class\":\"") + cname + "\",\"callback\":" + (cx.with_callback ? "1" : "0") + ",\"deep_chains\":" + (cx.deep_chains ? "1" : "0") + ",\"callback_reenters\":" + (cb_reenters ? "1" : "0") +
         ",\"callback_throws\":" + (cb_throws ? "1" : "0") + ",\"threads\":[";
     for (size_t t = 0; t < scripts.size(); t++) {
         if (t) pj += ",";
@@ -111,13 +119,16 @@ static void one_round(long r, bool concurrent, const char* cname)
     };
     if (cx.with_callback) dd = new DD(callback);
     else dd = new DD();
-    cx.reenter = [&cx, &dd](int what) {
+    cx.reenter = [&cx, &dd](int what, int depth) {
         if (what == 0) (void)dd->size();
         else if (what == 1) {
             int id = cx.next_id.fetch_add(1, std::memory_order_relaxed);
             if (id < MAXE) {
                 cx.added.fetch_add(1, std::memory_order_relaxed);
-                dd->addObjectsToBeDestroyed(std::make_shared<Elem>(&cx, id, -1));
+                // in deep-chain rounds the child's destructor hands over a grandchild, and so on for up to 9 generations: more
+                // than the container's destructor reaps round by round
+                int child_reenter = (cx.deep_chains && depth + 1 < 9) ? 1 : -1;
+                dd->addObjectsToBeDestroyed(std::make_shared<Elem>(&cx, id, child_reenter, depth + 1));
             }
         } else (void)dd->destroyObjects();
     };
@@ -138,6 +149,13 @@ static void one_round(long r, bool concurrent, const char* cname)
                         cx.owners[id].store(1, std::memory_order_relaxed);
                         cx.added.fetch_add(1, std::memory_order_relaxed);
                         dd->addObjectsToBeDestroyed(sp);
+                        // the same object handed over a second time (two entries, one control block): it may stay queued for
+                        // longer, but it is still destroyed once, and no callback runs for it unless it is reaped
+                        if (id % 9 == 4) {
+                            cx.extra_entries.fetch_add(1, std::memory_order_relaxed);
+                            cx.queued_twice[id].store(1, std::memory_order_relaxed);
+                            dd->addObjectsToBeDestroyed(sp);
+                        }
                         if (a.late_owner) late[t].emplace_back(std::move(sp), 0);
                         else if (a.hold == 0) drop(sp);
                         else owned.emplace_back(std::move(sp), a.hold);
@@ -147,7 +165,7 @@ static void one_round(long r, bool concurrent, const char* cname)
                     case 'T': (void)dd->destroyObjects(std::chrono::milliseconds(a.hold == 0 ? 0 : a.hold == 1 ? 3 : a.hold == 2 ? 6 : 120)); break;  // 120 ms: the unlock / sleep / re-lock loop
                     case 'S': {
                         size_t s = dd->size();
-                        if (s > static_cast<size_t>(cx.added.load(std::memory_order_relaxed))) vrf::violation("oracle:size_larger_than_ever_added", "{}");
+                        if (s > static_cast<size_t>(cx.added.load(std::memory_order_relaxed) + cx.extra_entries.load(std::memory_order_relaxed))) vrf::violation("oracle:size_larger_than_ever_added", "{}");
                         break;
                     }
                     default: vrf::hyield(); break;
@@ -171,7 +189,8 @@ static void one_round(long r, bool concurrent, const char* cname)
     vrf::run_checked(r, [&] {
         size_t s = dd->size();
         int added = cx.added.load(), dest = cx.destroyed_total.load();
-        if (static_cast<int>(s) + dest != added)
+        // every object is either still queued or destroyed; an object handed over twice may occupy two entries while queued
+        if (static_cast<int>(s) + dest < added || static_cast<int>(s) + dest > added + cx.extra_entries.load())
             vrf::violation("oracle:objects_lost_or_duplicated", "{\"added\":" + std::to_string(added) + ",\"destroyed\":" + std::to_string(dest) + ",\"size\":" + std::to_string(s) + "}");
         // container destruction: everything not owned elsewhere dies now, exactly once
         delete dd;
